@@ -7,6 +7,8 @@ import (
 
 	"google.golang.org/protobuf/encoding/prototext"
 	"google.golang.org/protobuf/types/descriptorpb"
+	"google.golang.org/protobuf/zverif/c41/c41run"
+	"google.golang.org/protobuf/zverif/model"
 	"google.golang.org/protobuf/zverif/pbt"
 	"google.golang.org/protobuf/zverif/schema"
 )
@@ -101,5 +103,36 @@ func TestWitnesses(t *testing.T) {
 			continue
 		}
 		pbt.Witness(t, w.id, ok, detail)
+	}
+	// runtime witness: the unit of negZeroSchema in this run's program
+	for _, b := range batches() {
+		if !b.witness || len(b.variants) == 0 {
+			continue
+		}
+		v := b.variants[0]
+		r := runnerFor(v.raw, v.level, false)
+		if r.err != nil {
+			t.Logf("witness unit %s: %v", v.files[0].GetName(), r.err)
+			continue
+		}
+		var resp c41run.Resp
+		pkg := v.files[0].GetPackage()
+		switch {
+		case strings.HasSuffix(pkg, "nz"):
+			err := r.call(c41run.Req{Op: "case", Msg: pkg + ".W", M: &model.Msg{}}, &resp)
+			if err != nil {
+				pbt.ReportViolation(t, "witness-"+kfNegZero, map[string]any{"finding": kfNegZero, "schema": negZeroSchema, "level": v.level}, err)
+				continue
+			}
+			pbt.Witness(t, kfNegZero, resp.NegZero, fmt.Sprintf("message W { optional float f = 1 [default = -0]; optional double d = 2 [default = -0]; } at API level %s: GetF() / GetD() of an empty message return +0, the descriptor default is -0", v.level))
+		case strings.HasSuffix(pkg, "rx"):
+			content := &model.Msg{Fields: []model.Field{{Num: 100, Vals: []model.Val{{B: []byte{0xff}}}}}}
+			err := r.call(c41run.Req{Op: "case", Msg: pkg + ".M", M: content, Bad8: true}, &resp)
+			if err != nil {
+				pbt.ReportViolation(t, "witness-"+kfRepStrExt, map[string]any{"finding": kfRepStrExt, "schema": repStrExtSchema, "level": v.level}, err)
+				continue
+			}
+			pbt.Witness(t, kfRepStrExt, resp.RepStrExt, fmt.Sprintf("edition 2023: message M { extensions 100 to 199; } extend M { repeated string xs = 100; } with xs = [\"\\xff\"] at API level %s: proto.Marshal of the generated message succeeds, of dynamicpb fails with 'contains invalid UTF-8'", v.level))
+		}
 	}
 }
